@@ -137,7 +137,9 @@ class C02Truth(Monitor):
         if fit is None or (isinstance(fit, float) and np.isnan(fit)):
             self.v(f"stored individual without fitness: {where}", deme=deme.id, x=hexf(ind.genome))
             return
-        t = self.ctx.truth(ind.genome)
+        t = self.ctx.truth(ind.genome, deme.level)
+        if self.ctx.desc.get("level_shift"):
+            self.cov("individuals_reevaluated_with_their_own_level_s_objective")
         if np.isinf(fit) and fit != t:
             self.cov("sentinel_seen")
             if not self._sentinel_ok(deme, fit):
@@ -191,11 +193,13 @@ class C02Truth(Monitor):
             if b is not None:
                 self._check_ind(d, b, f"{cname} best_individual")
         tb = tree.best_individual
-        self._check_ind(tree.root, tb, "tree best_individual")
+        owner = lambda ind_: next((d_ for d_ in self.all_demes(tree) if any(i_ is ind_ for i_ in d_.all_individuals)), tree.root)  # noqa: E731
+        self._check_ind(owner(tb), tb, "tree best_individual")
         if tree.leaves:
-            self._check_ind(tree.root, tree.best_leaf_individual, "tree best_leaf_individual")
+            bl = tree.best_leaf_individual
+            self._check_ind(owner(bl), bl, "tree best_leaf_individual")
             for ind in tree.r5s_solutions:
-                self._check_ind(tree.root, ind, "tree r5s_solutions")
+                self._check_ind(owner(ind), ind, "tree r5s_solutions")
         for d in self.all_demes(tree):
             bc = d.best_current_individual
             if bc is not None:
